@@ -128,6 +128,20 @@ def run(ctx: Ctx):
     ok = nm is not None and norm(nm) in (f"{fparam}.__code__.co_name", f"{fparam}.__name__")
     ctx.check(ok, "R05.b", cg.key("method-name"), "generated function is named after the scheme function's code name", f"CodeGenerator.scheme names the generated function {norm(nm) if nm is not None else None!r}, not the scheme function's name", cg.where(tcalls[0]))
 
+    stores = [n for n in ast.walk(gs.node) if isinstance(n, (ast.Assign, ast.AugAssign)) and any(isinstance(t, ast.Attribute) for t in (n.targets if isinstance(n, ast.Assign) else [n.target]))]
+    builders = set(table.values())
+    bad = []
+    for n in stores:
+        for t in n.targets if isinstance(n, ast.Assign) else [n.target]:
+            root = t
+            while isinstance(root, (ast.Attribute, ast.Subscript)):
+                root = root.value
+            if isinstance(root, ast.Name):
+                vals = {norm(a.value) for a in ast.walk(gs.node) if isinstance(a, ast.Assign) and any(isinstance(x, ast.Name) and x.id == root.id for x in a.targets)}
+                if root.id in builders or (vals and vals <= builders):
+                    bad.append(norm(n)[:70])
+    ctx.check(not bad, "R05.b", gs.key("no-in-place-rename"), "the module-level builder is not modified", f"get_scheme modifies the module-level builder itself ({bad}): after another alias has been requested the same builder generates a function under the wrong name", gs.where())
+
     # ---- R05.c inputs untouched / result array -------------------------------------
     ctx.rule("R05.c", "the step allocates a fresh result array, writes only there, returns it; inputs are const / never stored through", floor=6)
     T = tm.TemplateModel(sm)
@@ -194,3 +208,11 @@ def run(ctx: Ctx):
         entries = {const_str(k): v for k, v in zip(d.keys, d.values)}
         dv = const_str(entries.get("d")) or ""
         ctx.check(dv.split()[-1:] == [dtname], "R05.d", f.key("d-formal"), f"formal for 'd' is '{dv}'", f"{qn}: the formal for 'd' is {dv!r} but the body uses the symbol {dtname!r}", f.where())
+
+    # ---- R05.e / R05.f slots and argument order ----------------------------------------------------
+    ctx.rule("R05.e", "the step for state X is stored at state_index(X) (STATE slot family)", floor=11)
+    from .c04 import argument_orders, slot_families
+
+    slot_families(ctx, "R05.e", only_family="STATE")
+    ctx.rule("R05.f", "every argument order names states, t, dt, parameters by their own letters", floor=10)
+    argument_orders(ctx, "R05.f")
